@@ -342,4 +342,270 @@ Proof.
       * intros Hx. replace (s + n) with (s + k + (n - k)) by lia. apply HI2. lia.
 Qed.
 
+(* ---------- arithmetic of the position decomposition ---------- *)
+Lemma decomp_mod s R gi r :
+  s = (R * gM g + gi) * gv g + r -> 0 <= R -> 0 <= gi < gM g -> 0 <= r < gv g ->
+  s mod gL g = gi * gv g + r /\ s / gL g = R /\ s mod gv g = r.
+Proof.
+  intros Hs HR Hgi Hr. unfold gL.
+  assert (Hb : 0 <= gi * gv g + r < gM g * gv g) by nia.
+  assert (He : s = gM g * gv g * R + (gi * gv g + r)) by lia.
+  splits.
+  - symmetry. apply (Z.mod_unique_pos s (gM g * gv g) R (gi * gv g + r)); assumption.
+  - symmetry. apply (Z.div_unique_pos s (gM g * gv g) R (gi * gv g + r)); assumption.
+  - symmetry. apply (Z.mod_unique_pos s (gv g) (R * gM g + gi) r); lia.
+Qed.
+
+Lemma m1_not_m2 : gmerged g = true -> gv g = 1 -> merged2v g = false.
+Proof. intros A B. unfold merged2v. rewrite A, B. reflexivity. Qed.
+
+(* rows_to_go is irrelevant for the merged 1v upsampler *)
+Lemma Inv_exact_irrelevant s p e e' st :
+  merged2v g = false -> gmerged g = true -> Inv s p e st -> Inv s p e' st.
+Proof.
+  intros Hm2 Emg (R & gi & r & H1 & H2 & H3 & H4 & H5 & H6 & H7 & H8 & H9 & H10 & H11 & H12).
+  exists R, gi, r. splits; auto; try lia.
+  all: try (intros [A | A]; [rewrite Emg in A; discriminate | unfold merged2v in Hm2; rewrite Emg in Hm2;
+            assert ((gv g =? 2) = true) by lia; rewrite H in Hm2; discriminate]).
+Qed.
+
+Lemma reset_rtg_ok s p e st :
+  Inv s p e st -> scan (reset_rtg g st) = s /\ Inv s p (if gmerged g then e else true) (reset_rtg g st).
+Proof.
+  intros HI. destruct (Inv_scan _ _ _ _ HI) as (Hsc & _). unfold reset_rtg.
+  destruct (Bool.bool_dec (gmerged g) true) as [Emg | Emg].
+  - rewrite Emg. split; assumption.
+  - apply not_true_is_false in Emg. rewrite Emg. simp_st. split; [assumption|].
+    destruct HI as (R & gi & r & H1 & H2 & H3 & H4 & H5 & H6 & H7 & H8 & H9 & H10 & H11 & H12).
+    exists R, gi, r. simp_st. splits; auto; try lia.
+Qed.
+
+Lemma reset_sep_ok s p e st :
+  gmerged g = false -> Inv s p e st ->
+  Inv s p true (mkS (scan st) (bfull st) (rgctr st) (imcu st) (bufrow st) (nro st) (gH g - scan st) (cbuf st)
+                    (sfull st) (spare st)).
+Proof.
+  intros Emg HI. pose proof (reset_rtg_ok s p e st HI) as (_ & B). unfold reset_rtg in B. rewrite Emg in B. exact B.
+Qed.
+
+(* the "rowgroup_ctr += q" part of increment_simple_rowgroup_ctr *)
+Lemma bump_ok s pend exact st q :
+  Inv s pend exact st -> merged2v g = false -> 0 <= q ->
+  (s mod gv g = 0 \/ q = 0) -> s mod gL g + gv g * q < gL g -> s + gv g * q < gH g ->
+  Inv (s + gv g * q) (pend || (negb (bfull st) && (0 <? q))) (exact && (q =? 0))
+      (mkS (scan st + gv g * q) (bfull st) (rgctr st + q) (imcu st) (bufrow st) (nro st) (rtg st) (cbuf st)
+           (sfull st) (spare st)).
+Proof.
+  intros (R & gi & r & Hs & HR & Hgi & Hr & HsH & Hscan & Hrg & Hbt & Hbf & Hrtg & Hsep & Hm2) Hm2f Hq Hal Hin HltH.
+  destruct (decomp_mod s R gi r Hs HR Hgi Hr) as (HmL & HdL & Hmv_).
+  rewrite HmL in Hin. rewrite Hmv_ in Hal. unfold gL in Hin.
+  assert (Hgq : gi + q < gM g) by nia.
+  exists R, (gi + q), r. simp_st. rewrite Hscan, Hrg.
+  splits; try lia.
+  all: try (intros Hb; destruct (Hbt Hb) as (A & B & C & D); rewrite Hb; cbn [negb andb]; rewrite orb_false_r;
+            splits; auto; lia).
+  all: try (intros Hb; destruct (Hbf Hb) as (A & B & C & D); rewrite Hb; cbn [negb andb]; splits; auto;
+            [ intros Hp; apply orb_false_iff in Hp; destruct Hp as (Hp1 & Hp2); specialize (C Hp1); lia
+            | intros Hp; apply orb_true_iff in Hp; destruct Hp as [Hp | Hp]; [specialize (D Hp); lia | lia] ]).
+  all: try (intros Hm; destruct (Hrtg Hm) as (A & B); split; [lia|];
+            intros He; apply andb_true_iff in He; destruct He as (He1 & He2); rewrite (B He1); lia).
+  all: try (intros Hm; destruct (Hsep Hm) as (A & B); split; [assumption|]; intros Hr0; rewrite (B Hr0); lia).
+  all: try (rewrite Hm2f; discriminate).
+Qed.
+
+Lemma nat_eqb_z m : 0 <= m -> Nat.eqb (Z.to_nat m) 0 = (m =? 0).
+Proof. intros. destruct (Z.eq_dec m 0) as [-> | Hne]; [reflexivity|].
+  assert (E : (m =? 0) = false) by lia. rewrite E. apply Nat.eqb_neq. lia. Qed.
+
+(* increment_simple_rowgroup_ctr inside an iMCU row *)
+Lemma increment_ok s pend exact st rows :
+  Inv s pend exact st -> 0 <= rows ->
+  (merged2v g = false -> s mod gv g = 0 \/ rows < gv g) ->
+  s mod gL g + rows < gL g -> s + rows < gH g ->
+  scan (increment_s g st rows) = s + rows /\
+  Inv (s + rows)
+      (if merged2v g then pend && (rows =? 0)
+       else (pend || (negb (bfull st) && (0 <? rows / gv g))) && (rows mod gv g =? 0))
+      (if merged2v g then exact else exact && (rows / gv g =? 0))
+      (increment_s g st rows).
+Proof.
+  intros HI Hrows Hal Hin HltH. unfold increment_s. fold (merged2v g).
+  destruct (merged2v g) eqn:Em2.
+  - destruct (rad_ok (Z.to_nat rows) s pend exact st HI ltac:(lia)) as (A & B).
+    rewrite Z2Nat.id in A, B by lia. rewrite nat_eqb_z in B by lia. split; [assumption|]. apply B. lia.
+  - specialize (Hal eq_refl).
+    set (q := rows / gv g). set (m := rows mod gv g).
+    assert (Hqm : rows = gv g * q + m /\ 0 <= m < gv g /\ 0 <= q).
+    { unfold q, m. pose proof (Z.div_mod rows (gv g)). pose proof (Z.mod_pos_bound rows (gv g)).
+      assert (0 <= rows / gv g) by (apply Z.div_pos; lia). lia. }
+    destruct Hqm as (Hqm & Hm & Hq).
+    replace (rows - m) with (gv g * q) by lia.
+    assert (Hal' : s mod gv g = 0 \/ q = 0).
+    { destruct Hal as [A | A]; [left; assumption|]. right. unfold q. apply Z.div_small. lia. }
+    pose proof (bump_ok s pend exact st q HI Em2 Hq Hal' ltac:(nia) ltac:(nia)) as HB.
+    destruct (rad_ok (Z.to_nat m) (s + gv g * q) _ _ _ HB ltac:(lia)) as (A & B).
+    rewrite Z2Nat.id in A, B by lia. rewrite nat_eqb_z in B by lia.
+    replace (s + gv g * q + m) with (s + rows) in A, B by lia.
+    split; [assumption|]. apply B. lia.
+Qed.
+
+(* ---------- the abstract tracker and the state ---------- *)
+Definition Rel (a : astate) (st : sst) : Prop :=
+  scan st = a_s a /\ 0 <= a_s a <= gH g /\ (a_s a < gH g -> Inv (a_s a) (a_pend a) (a_exact a) st).
+
+Lemma jdim_small x : 0 <= x < 4294967296 -> jdim x = x.
+Proof. intros. unfold jdim. apply Z.mod_small. lia. Qed.
+
+(* a state sitting exactly on an iMCU row boundary with an empty buffer *)
+Lemma boundary_inv R2 e br nr' rt' cb sf sp :
+  0 <= R2 -> R2 * gL g < gH g ->
+  (gmerged g = false \/ gv g = 2 -> gH g - R2 * gL g <= rt' /\ (e = true -> rt' = gH g - R2 * gL g)) ->
+  (gmerged g = false -> nr' = gv g) ->
+  (merged2v g = true -> sf = false) ->
+  Inv (R2 * gL g) false e (mkS (R2 * gL g) false 0 R2 br nr' rt' cb sf sp).
+Proof.
+  intros HR Hlt Hrt Hnr Hsf. exists R2, 0, 0. simp_st. unfold gL in *.
+  splits; try lia; try discriminate; try reflexivity; auto.
+  all: try (intros _; splits; auto; lia).
+  all: try (intros Hm; rewrite (Hnr Hm); split; [reflexivity | lia]).
+  all: try (intros Hm; rewrite (Hsf Hm); splits; auto; lia).
+Qed.
+
+Lemma ltr_pos_equiv ltr v : 1 <= v -> 0 <= ltr ->
+  (0 <? ltr / v) && (ltr mod v =? 0) = (0 <? ltr) && (ltr mod v =? 0).
+Proof.
+  intros Hv1 Hl. destruct (ltr mod v =? 0) eqn:E; [|rewrite !andb_false_r; reflexivity].
+  rewrite !andb_true_r. pose proof (Z.div_mod ltr v ltac:(lia)).
+  assert (ltr mod v = 0) by lia. assert (0 <= ltr / v) by (apply Z.div_pos; lia).
+  destruct (0 <? ltr) eqn:E1; destruct (0 <? ltr / v) eqn:E2; try reflexivity; nia.
+Qed.
+
+Lemma skip_ok a st n a' :
+  Rel a st -> 0 <= n -> haz_step g a (Skip n) = (0, a') ->
+  exists st', skip_s g st n = (st', a_s a' - a_s a) /\ Rel a' st' /\ a_s a' = Z.min (gH g) (a_s a + n).
+Proof.
+  intros (Hsc & Hs & HI) Hn Hh. unfold haz_step in Hh. unfold skip_s. rewrite Hsc.
+  set (s := a_s a) in *.
+  destruct (gH g <=? s + n) eqn:E1.
+  { inversion Hh; subst a'. cbn [a_s]. eexists. split; [rewrite jdim_small by lia; reflexivity|]. split; [|lia].
+    unfold Rel, set_scan. simp_st. cbn [a_s a_pend a_exact]. splits; try lia. }
+  destruct (n =? 0) eqn:E2.
+  { inversion Hh; subst a'. exists st. assert (n = 0) by lia. subst n. fold s.
+    split; [f_equal; lia|]. split; [unfold Rel; fold s; auto | lia]. }
+  assert (HsH : s < gH g) by lia. specialize (HI HsH).
+  pose proof HI as HI0.
+  destruct HI0 as (R & gi & r & Hs_ & HR & Hgi & Hr & _ & Hscan & Hrg & Hbt & Hbf & Hrtg & Hsep & Hm2).
+  destruct (decomp_mod s R gi r Hs_ HR Hgi Hr) as (HmL & HdL & Hmv_).
+  rewrite Hmv_ in Hh.
+  assert (HL : gL g = gM g * gv g) by reflexivity. assert (HLpos : 0 < gL g) by nia.
+  assert (Hoff : 0 <= gi * gv g + r < gL g) by nia.
+  set (ll := (gL g - s mod gL g) mod gL g) in *.
+  assert (Hll : (gi * gv g + r = 0 /\ ll = 0) \/ (0 < gi * gv g + r /\ ll = gL g - (gi * gv g + r))).
+  { unfold ll. rewrite HmL. destruct (Z.eq_dec (gi * gv g + r) 0) as [E | E].
+    - left. split; [assumption|]. rewrite E, Z.sub_0_r. apply Z_mod_same_full.
+    - right. split; [lia|]. apply Z.mod_small. lia. }
+  destruct (n <? ll) eqn:E3.
+  - (* the skip stays inside the current iMCU row *)
+    destruct Hll as [(A & B) | (Hoff0 & Hlleq)]; [lia|].
+    assert (Hal : merged2v g = false -> s mod gv g = 0 \/ n < gv g).
+    { intros Em. rewrite Em in Hh. rewrite Hmv_. destruct ((r =? 0) || (n <? gv g)) eqn:Ec; [lia|]. inversion Hh. }
+    destruct (increment_ok s (a_pend a) (a_exact a) st n HI Hn Hal ltac:(lia) ltac:(lia)) as (Hsc' & HI').
+    exists (increment_s g st n).
+    destruct (merged2v g) eqn:Em.
+    + inversion Hh; subst a'. cbn [a_s]. split; [f_equal; lia|]. split; [|lia].
+      unfold Rel. cbn [a_s a_pend a_exact]. splits; try lia. intros _.
+      replace (a_pend a && (n =? 0)) with false in HI' by (rewrite E2, andb_false_r; reflexivity). exact HI'.
+    + specialize (Hal eq_refl). rewrite Hmv_ in Hal.
+      assert (Ec : ((r =? 0) || (n <? gv g)) = true) by lia. rewrite Ec in Hh.
+      inversion Hh; subst a'. cbn [a_s]. split; [f_equal; lia|]. split; [|lia].
+      unfold Rel. cbn [a_s a_pend a_exact]. splits; try lia. intros _.
+      (* the pending flag is unchanged by the row-group counter bump *)
+      assert (Hp : (a_pend a || (negb (bfull st) && (0 <? n / gv g))) = a_pend a).
+      { destruct (bfull st) eqn:Eb; [cbn [negb andb]; apply orb_false_r|].
+        destruct (Hbf eq_refl) as (_ & Hr0 & C & _). destruct (a_pend a); [reflexivity|].
+        specialize (C eq_refl). lia. }
+      rewrite Hp in HI'.
+      assert (He : (n / gv g =? 0) = (n <? gv g)).
+      { destruct (n <? gv g) eqn:En.
+        - rewrite Z.div_small by lia. reflexivity.
+        - assert (0 < n / gv g) by (apply Z.div_str_pos; lia). lia. }
+      rewrite He in HI'. exact HI'.
+  - (* the skip reaches the end of the current iMCU row *)
+    destruct (a_pend a) eqn:Ep; [inversion Hh|].
+    destruct (merged2v g && (r =? 1)) eqn:Esp; [inversion Hh|].
+    inversion Hh; subst a'. clear Hh. cbn [a_s].
+    set (la := n - ll) in *. set (qq := la / gL g). set (ltr := la mod gL g).
+    assert (Hla : la = gL g * qq + ltr /\ 0 <= ltr < gL g /\ 0 <= qq).
+    { unfold qq, ltr. pose proof (Z.div_mod la (gL g)). pose proof (Z.mod_pos_bound la (gL g)).
+      assert (0 <= la / gL g) by (apply Z.div_pos; unfold la; lia). lia. }
+    destruct Hla as (Hla & Hltr & Hqq).
+    assert (Hltr' : la - qq * gL g = ltr) by lia.
+    assert (Hq' : qq * gL g / gL g = qq) by (rewrite Z.div_mul by lia; reflexivity).
+    (* the iMCU row counter is the one of the row after the boundary *)
+    set (R1 := if gi * gv g + r =? 0 then R else R + 1).
+    assert (HR1 : imcu st = R1 /\ s + ll = R1 * gL g).
+    { unfold R1. destruct Hll as [(A & B) | (A & B)].
+      - assert (E : (gi * gv g + r =? 0) = true) by lia. rewrite E.
+        assert (gi = 0 /\ r = 0) by nia.
+        destruct (bfull st) eqn:Eb.
+        + destruct (Hbt eq_refl) as (_ & _ & C & _). lia.
+        + destruct (Hbf eq_refl) as (C & _). split; [assumption|]. nia.
+      - assert (E : (gi * gv g + r =? 0) = false) by lia. rewrite E.
+        destruct (bfull st) eqn:Eb.
+        + destruct (Hbt eq_refl) as (_ & C & _). split; [assumption|]. nia.
+        + destruct (Hbf eq_refl) as (_ & C & D & _). specialize (D eq_refl). nia. }
+    destruct HR1 as (Him & Hs1).
+    assert (HR1pos : 0 <= R1) by (unfold R1; destruct (gi * gv g + r =? 0); lia).
+    set (R2 := R1 + qq).
+    assert (Hs2 : s + ll + qq * gL g = R2 * gL g) by (unfold R2; nia).
+    assert (Hs2n : R2 * gL g + ltr = s + n) by (unfold la in *; lia).
+    assert (Hmod2 : (R2 * gL g) mod gL g = 0 /\ (R2 * gL g) mod gv g = 0).
+    { split; [apply Z.mod_mul; lia|]. rewrite HL. replace (R2 * (gM g * gv g)) with (R2 * gM g * gv g) by lia.
+      apply Z.mod_mul. lia. }
+    destruct Hmod2 as (Hmod2L & Hmod2v).
+    destruct st as [sc bf rc im br nr rt cb sf sp]. simp_st. simp_st_in Hscan. simp_st_in Him. simp_st_in Hrtg.
+    simp_st_in Hm2. simp_st_in HI. subst sc im.
+    destruct (Bool.bool_dec (gmerged g) true) as [Emg | Emg].
+    + (* merged upsampling: rows_to_go is left alone *)
+      unfold reset_rtg. rewrite Emg. simp_st. rewrite Hltr', Hq', Hs2.
+      set (e2 := a_exact a && (ll + qq * gL g =? 0)).
+      assert (HB : Inv (R2 * gL g) false e2 (mkS (R2 * gL g) false 0 R2 br nr rt cb sf sp)).
+      { apply boundary_inv; [lia | lia | | | ].
+        - intros Hm. destruct (Hrtg Hm) as (A & B). split; [nia|].
+          intros He. unfold e2 in He. apply andb_true_iff in He. destruct He as (He1 & He2).
+          rewrite (B He1). nia.
+        - rewrite Emg. discriminate.
+        - intros Hm. rewrite Hm in Esp. cbn [andb] in Esp. destruct (Hm2 Hm) as (A & _). rewrite A. exact Esp. }
+      replace (R1 + qq) with R2 by reflexivity.
+      destruct (increment_ok _ _ _ _ ltr HB ltac:(lia) ltac:(intros; left; exact Hmod2v) ltac:(lia) ltac:(lia))
+        as (Hsc3 & HI3).
+      set (st3 := increment_s g (mkS (R2 * gL g) false 0 R2 br nr rt cb sf sp) ltr) in *.
+      pose proof HI3 as HI4.
+      eexists. split; [f_equal; lia|]. split; [|lia].
+      unfold Rel. cbn [a_s a_pend a_exact]. fold s. splits; try lia. intros _.
+      rewrite Hs2n in HI4. simp_st_in HI4. cbn [negb andb orb] in HI4.
+      destruct (merged2v g) eqn:Em.
+      * cbn [negb andb]. unfold e2 in HI4.
+        replace (la - ltr) with (qq * gL g) by lia. exact HI4.
+      * cbn [negb andb]. rewrite ltr_pos_equiv in HI4 by lia.
+        eapply Inv_exact_irrelevant; eauto.
+    + (* separate upsampler: next_row_out and rows_to_go are reset *)
+      apply not_true_is_false in Emg. unfold reset_rtg. rewrite Emg. simp_st. rewrite Hltr', Hq', Hs2.
+      assert (Em : merged2v g = false) by (unfold merged2v; rewrite Emg; reflexivity).
+      assert (HB : Inv (R2 * gL g) false false (mkS (R2 * gL g) false 0 R2 br (gv g) (gH g - (s + ll)) cb sf sp)).
+      { apply boundary_inv; [lia | lia | | | ].
+        - intros _. split; [nia|]. discriminate.
+        - reflexivity.
+        - rewrite Em. discriminate. }
+      replace (R1 + qq) with R2 by reflexivity.
+      destruct (increment_ok _ _ _ _ ltr HB ltac:(lia) ltac:(intros; left; exact Hmod2v) ltac:(lia) ltac:(lia))
+        as (Hsc3 & HI3).
+      set (st3 := increment_s g (mkS (R2 * gL g) false 0 R2 br (gv g) (gH g - (s + ll)) cb sf sp) ltr) in *.
+      pose proof (reset_sep_ok _ _ _ _ Emg HI3) as HI4.
+      eexists. split; [f_equal; lia|]. split; [|simp_st; lia].
+      unfold Rel. cbn [a_s a_pend a_exact]. fold s. splits; try lia. intros _.
+      rewrite Hs2n in HI4. simp_st_in HI4. rewrite Em in HI4. cbn [negb andb orb] in HI4.
+      rewrite Em. cbn [negb andb]. rewrite ltr_pos_equiv in HI4 by lia. exact HI4.
+Qed.
+
 End Sched.
